@@ -348,3 +348,25 @@ Lemma seek_le_spec' L it ts : lay L ->
   | None => snd (di_seek_le L it ts) = false
   end.
 Proof. intros HL. exact (seek_le_spec L it ts HL). Qed.
+
+(* ---- the iterator bounds are only changed by SetBounds ---- *)
+Lemma reload_b L it : di_b (fst (di_reload L it)) = di_b it.
+Proof.
+  unfold di_reload. destruct (di_pos it =? -1); [reflexivity|].
+  destruct (znth L (di_pos it)) as [p|]; [|reflexivity]. destruct (overlaps (d_tr p) (di_b it)); reflexivity.
+Qed.
+Lemma seek_ge_b L it ts : di_b (fst (di_seek_ge L it ts)) = di_b it.
+Proof. unfold di_seek_ge. rewrite reload_b. reflexivity. Qed.
+Lemma seek_le_b L it ts : di_b (fst (di_seek_le L it ts)) = di_b it.
+Proof. unfold di_seek_le. rewrite reload_b. reflexivity. Qed.
+Lemma next_b L it : di_b (fst (di_next L it)) = di_b it.
+Proof.
+  unfold di_next. destruct (negb (di_valid it)); [reflexivity|].
+  pose proof (reload_b L (DI (di_b it) (di_pos it + 1) (di_cur it) (di_valid it))) as R.
+  destruct (di_reload L _) as [it' ok]. cbn [fst di_b] in *. destruct ok; cbn [fst di_b]; exact R.
+Qed.
+Lemma prev_b L it : di_b (fst (di_prev L it)) = di_b it.
+Proof.
+  unfold di_prev. destruct (negb (di_valid it)); [reflexivity|]. destruct (di_pos it =? 0); [reflexivity|].
+  rewrite reload_b. reflexivity.
+Qed.
